@@ -146,6 +146,15 @@ def verify(code=None, filename=DEFAULT_STUDENT_FILENAME, report=MAIN_REPORT,
                      sys.exc_info(), report=report, muted=muted, enhance=enhance)
         report[TOOL_NAME]['success'] = False
         report[TOOL_NAME]['ast'] = ast.parse("")
+    except (MemoryError, RecursionError) as e:
+        # The parser gave up on this source (e.g., an absurdly long or deep expression);
+        # that is a rejection too, although CPython does not call it a SyntaxError.
+        error = SyntaxError(str(e) or type(e).__name__)
+        error.filename = filename
+        syntax_error(None, filename, code, None, error,
+                     sys.exc_info(), report=report, muted=muted, enhance=enhance)
+        report[TOOL_NAME]['success'] = False
+        report[TOOL_NAME]['ast'] = ast.parse("")
     else:
         report[TOOL_NAME]['success'] = True
     return report[TOOL_NAME]['success']
